@@ -96,12 +96,14 @@ fn mesh1d_case(nodes: &[f64], nvars: usize, pat: usize, exact: bool, acc: &mut A
     Ok(())
 }
 
-fn roundtrip_case(nodes: &[f64], nvars: usize, prec: usize, dir: &std::path::Path, tag: u64) -> Result<(), String> {
+fn roundtrip_case(nodes: &[f64], nvars: usize, prec: usize, big: bool, dir: &std::path::Path, tag: u64) -> Result<(), String> {
     let n = nodes.len();
     let mut m = Mesh1D::<f64, f64>::new(Vector::create(nodes.to_vec()), nvars);
+    // `big`: values of seven to sixteen digits before the decimal point, of both signs (columns of a fixed width would run together)
+    let bigs = [1234567.0, -87654321.0, 9007199254740992.0, -1000000.0];
     for i in 0..n {
         for v in 0..nvars {
-            m[i][v] = val(0, i, v) + 0.123456789012 * (v as f64 + 1.0);
+            m[i][v] = val(0, i, v) + 0.123456789012 * (v as f64 + 1.0) + if big { bigs[(i + 2 * v) % 4] } else { 0.0 };
         }
     }
     let path = dir.join(format!("mesh_{}_{}.dat", tag, prec));
@@ -509,7 +511,7 @@ impl Sut for St1 {
 fn main() {
     let ctx = Ctx::from_args("C19");
     ctx.level("model_checking");
-    ctx.rule("E1: 1-D meshes with 2..6 nodes and EVERY spacing word over {1/4,1/2,1,2} (2..7 nodes quick / 2..9 thorough), up to 12 nodes with every <=2 (quick) / <=3 (thorough) deviation word from uniform, a second family with spacings {3/4,3/2,1} (rounding tolerance), 1..4 variables, two integer-valued data patterns: every access path, interpolation at every node / mid-cell / quarter / eighth points (never within 1e-6 of a node except at it), trapezium = cell sum and exact on linear data, output->read round trip at precisions 3, 6, 12; 2-D meshes over all pairs of node counts 2..8 (quick) / 2..12 (thorough) with three spacing words each: every access path, both cross-section orientations, var_as_matrix, apply, assign, trapezium/square_trapezium = cell sums, exact on bilinear data. E2: BFS over write histories (set_nodes_vars, index writes, assign, apply) on 2x3 and 3x2 meshes, the real object rebuilt by replaying each history, all views re-checked in every state. Non-trivial: non-uniform grids, interpolation at the last node, non-square 2-D meshes.");
+    ctx.rule("E1: 1-D meshes with 2..6 nodes and EVERY spacing word over {1/4,1/2,1,2} (2..7 nodes quick / 2..9 thorough), up to 12 nodes with every <=2 (quick) / <=3 (thorough) deviation word from uniform, a second family with spacings {3/4,3/2,1} (rounding tolerance), 1..4 variables, two integer-valued data patterns: every access path, interpolation at every node / mid-cell / quarter / eighth points (never within 1e-6 of a node except at it), trapezium = cell sum and exact on linear data, output->read round trip at precisions 0, 1, 2, 3, 6, 12 (nodes closer than the last printed digit included, values up to 2^53, targets of fewer / equally many / more nodes, read twice); 2-D meshes over all pairs of node counts 2..8 (quick) / 2..12 (thorough) with three spacing words each: every access path, both cross-section orientations, var_as_matrix, apply, assign, trapezium/square_trapezium = cell sums, exact on bilinear data. E2: BFS over write histories (set_nodes_vars, index writes, assign, apply) on 2x3 and 3x2 meshes, the real object rebuilt by replaying each history, all views re-checked in every state. Non-trivial: non-uniform grids, interpolation at the last node, non-square 2-D meshes.");
     ctx.assume("nodal data are integer-valued / dyadic so that f64 results are exact on power-of-two grids");
     ctx.require(&["non-uniform grid", "interpolations at a node", "interpolations inside a cell", "non-square 2-D mesh", "non-square mesh state", "apply in a history", "round trip", "index write after interpolation queries", "1-D history of >= 2 writes"]);
     // integer-valued nodal data that is large next to its neighbour (right - left is rounded): the nodes must still give back
@@ -680,18 +682,21 @@ fn main() {
     // file round trip
     let dir = std::path::PathBuf::from(format!("/verif/target/run/mesh_{}", std::process::id()));
     let _ = std::fs::create_dir_all(&dir);
+    let precs = [0usize, 1, 2, 3, 6, 12];
     ctx.lattice(
-        "Mesh1D output -> read round trip: node counts 2..8 x nvars 1..4 x precision {3,6,12}",
-        7 * 4 * 3,
-        |idx| format!("n={} nvars={} precision={}", 2 + idx / 12, 1 + (idx / 3) % 4, [3, 6, 12][(idx % 3) as usize]),
+        "Mesh1D output -> read round trip: node counts 2..8 x nvars 1..4 x precision {0,1,2,3,6,12} x {spacing 1/4..2, spacing 0.001..0.008} x {values below 40, values up to 2^53}",
+        7 * 4 * 6 * 4,
+        |idx| format!("n={} nvars={} precision={} variant={}", 2 + idx / 96, 1 + (idx / 24) % 4, precs[((idx / 4) % 6) as usize], idx % 4),
         |idx, acc| {
-            let n = 2 + (idx / 12) as usize;
-            let nvars = 1 + ((idx / 3) % 4) as usize;
-            let prec = [3usize, 6, 12][(idx % 3) as usize];
-            let word: Vec<f64> = (0..n - 1).map(|k| SP[(k * 3 + 1) % 4]).collect();
+            let n = 2 + (idx / 96) as usize;
+            let nvars = 1 + ((idx / 24) % 4) as usize;
+            let prec = precs[((idx / 4) % 6) as usize];
+            let (fine, big) = (idx % 2 == 1, (idx % 4) >= 2);
+            // fine: neighbouring nodes closer than the last printed digit at precisions 0..2 (they read back equal: still n nodes)
+            let word: Vec<f64> = (0..n - 1).map(|k| SP[(k * 3 + 1) % 4] * if fine { 0.004 } else { 1.0 }).collect();
             let nodes = nodes_from(&word, -0.375);
             acc.nontriv("round trip");
-            judge(acc, idx, || format!("round trip n={} nvars={} precision={}", n, nvars, prec), || roundtrip_case(&nodes, nvars, prec, &dir, idx));
+            judge(acc, idx, || format!("round trip n={} nvars={} precision={} fine={} big={}", n, nvars, prec, fine, big), || roundtrip_case(&nodes, nvars, prec, big, &dir, idx));
         },
     );
     let _ = std::fs::remove_dir_all(&dir);
